@@ -360,13 +360,20 @@ func (d *Decoder) unmarshal(val reflect.Value, tagType byte) error {
 		// Otherwise, if we need parse into array, we check if len(array) are enough.
 		var buf reflect.Value
 		vk := val.Kind()
+		// The length is read from the input: slices grow as elements are
+		// decoded instead of being allocated at the declared length.
+		const preallocLimit = 1024
+		prealloc := int(listLen)
+		if prealloc > preallocLimit {
+			prealloc = preallocLimit
+		}
 		switch vk {
 		default:
 			return errors.New("cannot parse TagList as " + vk.String())
 		case reflect.Interface:
-			buf = reflect.ValueOf(make([]any, listLen))
+			buf = reflect.ValueOf(make([]any, 0, prealloc))
 		case reflect.Slice:
-			buf = reflect.MakeSlice(val.Type(), int(listLen), int(listLen))
+			buf = reflect.MakeSlice(val.Type(), 0, prealloc)
 		case reflect.Array:
 			if vl := val.Len(); vl < int(listLen) {
 				return fmt.Errorf(
@@ -376,6 +383,9 @@ func (d *Decoder) unmarshal(val reflect.Value, tagType byte) error {
 			buf = val
 		}
 		for i := 0; i < int(listLen); i++ {
+			if vk != reflect.Array {
+				buf = reflect.Append(buf, reflect.Zero(buf.Type().Elem()))
+			}
 			if err := d.unmarshal(buf.Index(i), listType); err != nil {
 				return err
 			}
